@@ -6,25 +6,25 @@ import "github.com/hydraide/hydraide/app/verifshim/vsched"
 
 // Instrumented synchronisation sites on the subscription / event path (see cmd/instrument -kind vsched).
 var c19Sites = []string{
-	"hydra:SubscribeToSwampEvents:3:Load",
-	"hydra:SubscribeToSwampEvents:5:Store",
-	"hydra:SubscribeToSwampEvents:6:Store",
-	"hydra:UnsubscribeFromSwampEvents:2:Load",
-	"hydra:UnsubscribeFromSwampEvents:4:Delete",
-	"hydra:UnsubscribeFromSwampEvents:5:Range",
-	"hydra:eventCallbackFunction:1:Load",
-	"hydra:eventCallbackFunction:2:Range",
-	"hydra:hasEventSubscriber:1:Load",
-	"swamp:StartSendingEvents:2:atomic.StoreInt32",
-	"swamp:StopSendingEvents:2:atomic.StoreInt32",
-	"swamp:sendEventToHydra:1:atomic.LoadInt32",
-	"swamp:sendDeletedEventToClient:1:atomic.LoadInt32",
-	"swamp:deleteHandler:1:StartTreasureGuard",
-	"swamp:deleteHandler:3:Add",
-	"swamp:CreateTreasure:1:Lock",
-	"swamp:CreateTreasure:5:Store",
-	"swamp:SaveFunction:2:Delete",
-	"gateway:SubscribeToEvents:1:select",
+	"hydra:SubscribeToSwampEvents:Load:5978b3",
+	"hydra:SubscribeToSwampEvents:Store:a25ce7",
+	"hydra:SubscribeToSwampEvents:Store:56575f",
+	"hydra:UnsubscribeFromSwampEvents:Load:5978b3",
+	"hydra:UnsubscribeFromSwampEvents:Delete:a116d4",
+	"hydra:UnsubscribeFromSwampEvents:Range:26e8ce",
+	"hydra:eventCallbackFunction:Load:1a7144",
+	"hydra:eventCallbackFunction:Range:4bb3df",
+	"hydra:hasEventSubscriber:Load:5978b3",
+	"swamp:StartSendingEvents:atomic.StoreInt32:4efc9e",
+	"swamp:StopSendingEvents:atomic.StoreInt32:5df9d4",
+	"swamp:sendEventToHydra:atomic.LoadInt32:9cc62d",
+	"swamp:sendDeletedEventToClient:atomic.LoadInt32:9cc62d",
+	"swamp:deleteHandler:StartTreasureGuard:ac9b2b",
+	"swamp:deleteHandler:Add:d3b37d",
+	"swamp:CreateTreasure:Lock:678d26",
+	"swamp:CreateTreasure:Store:98e79a",
+	"swamp:SaveFunction:Delete:8d391f",
+	"gateway:SubscribeToEvents:select:3e8f84",
 }
 
 func activatePlan(p []PlanAction) bool {
